@@ -80,6 +80,12 @@ func NewBuffer(commit func(b *Buffer) error, uuid string) *Buffer {
 	}
 }
 
+func (b *Buffer) setCheckStartOffset(offset int64) {
+	b.mu.Lock()
+	defer b.mu.Unlock()
+	b.checkStartOffset = offset
+}
+
 func (b *Buffer) Cancel() error {
 	b.mu.Lock()
 	defer b.mu.Unlock()
@@ -112,7 +118,10 @@ func (b *Buffer) GetBlob() (ociregistry.Descriptor, []byte, error) {
 	if b.commitErr != nil {
 		return ociregistry.Descriptor{}, nil, b.commitErr
 	}
-	return b.desc, b.buf, nil
+	// Note: return only the data that was present when the commit
+	// was checked: there might have been concurrent writes since,
+	// and the capacity limit stops a later append from sharing memory with it.
+	return b.desc, b.buf[:b.desc.Size:b.desc.Size], nil
 }
 
 // Write implements io.Writer by writing some data to the blob.
@@ -161,11 +170,8 @@ func (b *Buffer) Commit(dig ociregistry.Digest) (_ ociregistry.Descriptor, err e
 		b.commitErr = err
 		return ociregistry.Descriptor{}, err
 	}
-	return ociregistry.Descriptor{
-		MediaType: "application/octet-stream",
-		Size:      int64(len(b.buf)),
-		Digest:    dig,
-	}, nil
+	desc, _, err := b.GetBlob()
+	return desc, err
 }
 
 func (b *Buffer) checkCommit(dig ociregistry.Digest) (err error) {
